@@ -20,9 +20,10 @@ def packEntry (fmt : PackFmt) (filt : PackFilter) (e : FsEntry) (b : Bucket) : O
   | .error c => .err c
   | .ok m =>
     if m.kind = .invalid then .ok b else
+    -- `Mtime.Truncate(time.Second)`: both formats hash what the archive stores (whole seconds)
+    let m := { m with mtime := ⟨m.mtime.sec, 0⟩ }
     match fmt with
     | .tar =>
-      let m := { m with mtime := ⟨m.mtime.sec, 0⟩ }       -- `Mtime.Truncate(time.Second)`
       match metaToTarHdr m e.chash with
       | none => .panic "can't pack sockets into tar"
       | some _ => .ok (b.add m (if m.kind = .file then e.chash else []))
